@@ -649,8 +649,10 @@ func (r *PipelineRunner) resolveScheduleAction(pipeline string, ignoreStartDelay
 }
 
 func (r *PipelineRunner) resolveDequeueJobAction(job *PipelineJob) scheduleAction {
-	// Start the job if it had a start delay but the timer finished
-	ignoreStartDelay := job.StartDelay > 0 && job.startTimer == nil
+	// Start the job if it has no pending start delay timer: either its own delay has passed or it was queued without
+	// one. The start delay of the current pipeline definition applies to newly scheduled jobs only, it might have
+	// been introduced by replacing the definitions after this job was queued.
+	ignoreStartDelay := job.startTimer == nil
 	return r.resolveScheduleAction(job.Pipeline, ignoreStartDelay)
 }
 
